@@ -230,7 +230,7 @@ def run(tier, seed):
         "not claimed, not compared: that R is a proper rotation in exact mode, scaling of distances, the second-order error of the small-angle inverse (only the fourth element is compared there), Molodensky",
         "a dynamic definition without t_epoch: the documentation does not say it must be refused; only 'no panic' is required",
         "both spellings of one parameter group in one definition (x=.. together with translation=..) are not generated: precedence is undocumented",
-        "convention given without rotations, and unknown convention names, are not generated",
+        "unknown convention names are not generated; a convention given without rotations must be accepted and be inert (position_vector only)",
         "a tuple with a NaN epoch under a dynamic definition must come out with NaN x, y, z (no defined parameters); its count is not compared",
         "algebraic relations are compared to 1e-9 m + 8 ulp of the largest magnitude involved (1e-9 m alone is below one ulp at 10^7 m)",
         "params(): a key the operator does not expose is reported as uncovered, not judged; with t_obs both the folded and the unfolded value are accepted",
